@@ -1,4 +1,5 @@
 import Abmarl.Lemmas.Grid
+import Abmarl.Lemmas.MoversInactive
 /-!
 # C12 — Moves succeed exactly when the destination is free, and change only the mover
 
@@ -201,5 +202,78 @@ theorem C12_moves_judge (w : World) (c : MoveCall) (hI : w.WInv = true) (ha : c.
     (hact : (w.stOf c.agent).active = true) (hsp : c.inSpace w = true) :
     specMoveAny w c (runMoveCall w c) = true := by
   rw [specMoveAny_active w c _ hact]; exact C12_moves w c hI ha hact hsp
+
+end Abmarl
+
+namespace Abmarl
+open World
+
+/-! ### The mover is not active (round 6)
+
+Under `WInv` an agent that is not active stands in no cell (`World.not_mem_cell_of_inactive`), so the only
+operation of a move actor that could change the world - `Grid.remove` followed by `Grid.place` - raises
+`KeyError` at its first half (`World.remove_inactive`).  Everything before it only reads. -/
+
+/-- the drift actor's attempt along the stored orientation returns the world it was given -/
+theorem ghostDrift_world {w : World} {a : Aid} {r : Option Bool × World × Int}
+    (h : w.ghostDrift a = .ok r) : r.2.1 = w := by
+  unfold ghostDrift at h
+  split at h
+  · cases h
+  · split at h
+    · cases h
+    · cases h; rfl
+
+/-- **C12, inactive mover**, without any bound on the agent index and for EVERY action value (inside the
+declared action space or not): the call raises, or returns with the world unchanged. -/
+theorem C12_inactive_mover_any (w : World) (c : MoveCall) (hI : w.WInv = true)
+    (hin : (w.stOf c.agent).active = false) : specMoveAny w c (runMoveCall w c) = true := by
+  cases c with
+  | move a d =>
+    simp only [MoveCall.agent] at hin
+    simp only [specMoveAny, MoveCall.agent, hin, runMoveCall, moveAct_inactive hI hin]
+    by_cases hm : (w.cfgOf a).moving = true <;> by_cases h : w.wouldMove a d = true <;>
+      simp [hm, h, Except.map]
+  | cross a x =>
+    simp only [MoveCall.agent] at hin
+    simp only [specMoveAny, MoveCall.agent, hin, runMoveCall, crossAct_inactive hI hin]
+    by_cases hm : (w.cfgOf a).moving = true
+    · cases hd : crossTable x with
+      | none => simp [hm, Except.map]
+      | some d => by_cases h : w.wouldMove a d = true <;> simp [hm, h, Except.map]
+    · simp [hm, Except.map]
+  | drift a x =>
+    simp only [MoveCall.agent] at hin
+    simp only [specMoveAny, MoveCall.agent, hin, runMoveCall]
+    cases hr : w.driftAct a x with
+    | error e => simp [Except.map]
+    | ok r =>
+      have hw : r.2.1 = w := by
+        rw [driftAct_inactive hI hin] at hr
+        by_cases hsup : ((w.cfgOf a).moving && (w.cfgOf a).hasOrient) = true
+        · rw [if_pos hsup] at hr
+          by_cases hx : x = 0
+          · rw [if_neg (by simpa using hx)] at hr
+            exact ghostDrift_world hr
+          · rw [if_pos hx] at hr
+            cases hd : crossTable x with
+            | none => rw [hd] at hr; cases hr
+            | some d =>
+              rw [hd] at hr
+              by_cases h : w.wouldMove a d = true
+              · simp only [h, if_true] at hr; cases hr
+              · simp only [h, Bool.false_eq_true, if_false] at hr
+                exact ghostDrift_world hr
+        · rw [if_neg hsup] at hr
+          cases hr; rfl
+      simp [Except.map, hw]
+
+/-- **C12, inactive mover** (the clause the driver judges with `specMoveAny` when the agent of the call is
+not active): for every world satisfying `WInv`, every agent that is not active and EVERY action value - no
+`inSpace` hypothesis is needed - the call raises or returns with the world unchanged.  (The bound `ha` is
+not used: `C12_inactive_mover_any`.) -/
+theorem C12_inactive_mover (w : World) (c : MoveCall) (hI : w.WInv = true) (_ha : c.agent < w.n)
+    (hin : (w.stOf c.agent).active = false) : specMoveAny w c (runMoveCall w c) = true :=
+  C12_inactive_mover_any w c hI hin
 
 end Abmarl
